@@ -64,6 +64,12 @@ func NewGzipResponseWriter(w http.ResponseWriter, contentTypes *regexp.Regexp) *
 }
 
 func (grw *GzipResponseWriter) WriteHeader(code int) {
+	// an informational response (100 Continue, 103 Early Hints, ...) is not
+	// the response: pass it on and decide on the headers of the final one
+	if code >= 100 && code <= 199 && code != http.StatusSwitchingProtocols {
+		grw.ResponseWriter.WriteHeader(code)
+		return
+	}
 	if grw.writer == nil {
 		if isCompressable(grw.Header(), grw.contentTypes) {
 			grw.Header().Del(headerContentLength)
